@@ -23,7 +23,13 @@ KEYWORDS = {"as", "break", "const", "continue", "crate", "else", "enum", "extern
             "loop", "match", "mod", "move", "mut", "pub", "ref", "return", "self", "Self", "static", "struct", "super", "trait",
             "true", "type", "unsafe", "use", "where", "while", "async", "await", "dyn", "box", "_"}
 NESTED_ITEMS = {"fn", "struct", "enum", "impl", "trait", "mod", "union", "macro_rules"}
-CAPTURE = re.compile(r"(?<!\{)\{([A-Za-z_][A-Za-z0-9_]*)\s*(?::[^{}]*)?\}(?!\})")
+CAPTURE = re.compile(r"(?<!\{)\{([A-Za-z_][A-Za-z0-9_]*)(\s*(?::[^{}]*)?)\}(?!\})")
+
+
+def _blank_names(lit):
+    """a format string with the names of its inline captures blanked (`{e:02x}` -> `{#:02x}`): everything else - the format specifications
+    included - stays"""
+    return CAPTURE.sub(lambda m: "{#" + m.group(2) + "}", lit)
 
 
 def _is_binder_name(s):
@@ -490,7 +496,7 @@ def alpha_equal(new_text, base_text):
                 return False
             if ra.caps[i] != rb.caps[i] or -1 in ra.caps[i]:
                 return False
-            if CAPTURE.sub("{}", a.text) != CAPTURE.sub("{}", b.text):
+            if _blank_names(a.text) != _blank_names(b.text):
                 return False
         elif a.text != b.text:
             return False
